@@ -493,4 +493,53 @@ example :
     (by intro o ob hm; simp at hm; rcases hm with ⟨_, rfl⟩ | ⟨_, rfl⟩ <;> rfl) 0
     [g_CorrelationAnalyzer_xcorr_norm] [] _ (by rfl)
 
+
+/-! ### failure paths: a `set_input` that is refused -/
+
+theorem RetargetOK.forget_derived {spec : Spec} {present walked d r : List Nat}
+    (h : RetargetOK spec present walked d r) : RetargetOK spec present walked [] [] :=
+  ⟨h.sorted, h.noClobber, h.writes, h.dwrites, h.walk, fun _ _ _ hd => absurd hd List.not_mem_nil,
+   fun _ hp => absurd hp List.not_mem_nil⟩
+
+/-- A REFUSED `set_input` (it raises before anything is changed, or after `BaseAnalyzer.set_input` has
+    already reset the object and put the input back / never replaced it): whatever was read before, every
+    later sequence of reads answers exactly like a freshly built object with the SAME parameters and the
+    SAME input.  `reset walked` is the worst case of what a refusal may have done to the stored results. -/
+theorem refused_set_input_eq_fresh (spec : Spec) (present walked derived refreshed : List Nat)
+    (sem : Sem V I) (cp : Nat → Option V) (x : I)
+    (hR : RetargetOK spec present walked derived refreshed)
+    (hp : ∀ p ∈ present, ((construct sem derived cp x).params p).isSome = true)
+    (h h' : List Nat) (g : Nat) :
+    (read spec sem g (run spec sem h' (reset walked (run spec sem h (construct sem derived cp x))))).2
+      = (read spec sem g (run spec sem h' (construct sem derived cp x))).2 ∧
+    (read spec sem g (run spec sem h' (run spec sem h (construct sem derived cp x)))).2
+      = (read spec sem g (run spec sem h' (construct sem derived cp x))).2 := by
+  have hR0 := hR.forget_derived
+  -- the derived slots are ordinary constructor parameters as long as the input does not change
+  have e0 : construct sem [] (construct sem derived cp x).params x = construct sem derived cp x := by
+    simp [construct]
+  have hin : (run spec sem h (construct sem derived cp x)).input = x :=
+    (run_inv spec sem _ x present hR.noInterference h _
+      (construct_inv spec sem derived cp x present hp)).input
+  have e1 : reset walked (run spec sem h (construct sem derived cp x))
+      = retarget sem walked [] [] (fun _ => none) x (run spec sem h (construct sem derived cp x)) := by
+    simp [reset, retarget, hin]
+  have e2 : newParams [] (fun _ => none) (construct sem derived cp x).params
+      = (construct sem derived cp x).params := by
+    funext p; simp [newParams]
+  refine ⟨?_, ?_⟩
+  · rw [e1]
+    have := retarget_eq_fresh spec present walked [] [] [] sem (construct sem derived cp x).params
+      (fun _ => none) x x hR0 (by rw [e0]; exact hp) (by rw [e2, e0]; exact hp) (by intro p _ hc; cases hc) h h' g
+    rw [e2, e0] at this
+    exact this
+  · -- nothing happened at all: reads after reads (`order_independent` for the concatenated history)
+    have i0 := construct_inv spec sem derived cp x present hp
+    have hN := hR.noInterference
+    have a := run_inv spec sem _ x present hN h' _ (run_inv spec sem _ x present hN h _ i0)
+    have b := run_inv spec sem _ x present hN h' _ i0
+    unfold OneTime.read
+    rw [(readF_correct spec sem _ x present hN (g + 1) g _ (Nat.lt_succ_self g) a).2,
+        (readF_correct spec sem _ x present hN (g + 1) g _ (Nat.lt_succ_self g) b).2]
+
 end Nitime.C14.Props
